@@ -236,3 +236,7 @@ def run_feat(d, ob, fails):
         ex.append(float(w @ (-0.5 * np.einsum("ni,ij,nj->n", res, Ly, res))) + const)
     lin.chk(fails, ["C14"], "integrate_log_conditional_y = E_p(x)[ln p(y|x)] (feature model)", "%s.integrate_log_conditional_y" % f["kind"], val, np.array(ex), tol=1e-7)
     return ob, fails
+
+
+# objects with a history (lin.with_history): dry run on the before-state objects, in-place mutation, observed run
+run_impl = lin.with_history(run_impl)
